@@ -94,6 +94,27 @@ func iteratorWriteBackRule(r *Run, rule string, names map[string]bool) {
 			}
 			extra = append(extra, ifNot(f.Truth)+exprString(f.Atom))
 		}
+		// nothing between the callback and the write-back leaves the iteration early or removes the element
+		// (a test over the element whose negation is a disjunction yields no fact, so the fact comparison
+		// above cannot see `if a && b { delete; continue }`)
+		ast.Inspect(v.Decl.Body, func(m ast.Node) bool {
+			if m == nil || m.Pos() <= cbCall.End() || m.Pos() >= setCall.Pos() {
+				return true
+			}
+			switch x := m.(type) {
+			case *ast.BranchStmt:
+				extra = append(extra, x.Tok.String()+" at "+v.pos(x)+" before the write-back")
+			case *ast.CallExpr:
+				if v.calleeName(x) == "Delete" {
+					extra = append(extra, "Delete at "+v.pos(x)+" before the write-back")
+				}
+			case *ast.ReturnStmt:
+				if !returnsErr(v, x) {
+					extra = append(extra, "return without an error at "+v.pos(x)+" before the write-back")
+				}
+			}
+			return true
+		})
 		okCond := sawUpd && len(extra) == 0
 		// the written value is the element handed to the callback, the key is the key that was read
 		okVal := false
@@ -118,6 +139,9 @@ func iteratorWriteBackRule(r *Run, rule string, names map[string]bool) {
 		}
 		okKey := false
 		ks := exprString(setCall.Args[0])
+		if ds := v.resolveDefs(setCall.Args[0], 0); len(ds) == 1 {
+			ks = exprString(ds[0]) // a local holding iterator.Key()
+		}
 		if strings.HasSuffix(ks, ".Key()") {
 			okKey = true
 		} else if strings.HasSuffix(ks, ".Value()") {
